@@ -556,4 +556,116 @@ theorem pickBw_fold_idx {L nx U Vx t0 b : Nat} {ids : List Nat} (ht0 : t0 < U * 
     simp [b2n]
   · simp only [m, m1, Moves.swap, pickMoves]
 
+/-! ### consecutive blocks (batch_concat; the positions along the axis of concat) -/
+
+theorem take_sum_succ_le (l : List Nat) (p : Nat) (hp : p < l.length) : (l.take p).sum + l[p] ≤ l.sum := by
+  induction l generalizing p with
+  | nil => simp at hp
+  | cons x rest ih =>
+    cases p with
+    | zero => simp
+    | succ p =>
+      have := ih p (by simpa using hp)
+      simp only [List.take_succ_cons, List.sum_cons, List.getElem_cons_succ]; omega
+
+/-- every position below the total lies in exactly one block -/
+theorem exists_block (l : List Nat) (o : Nat) (h : o < l.sum) :
+    ∃ p, ∃ hp : p < l.length, (l.take p).sum ≤ o ∧ o < (l.take p).sum + l[p] := by
+  induction l generalizing o with
+  | nil => simp at h
+  | cons x rest ih =>
+    rcases Nat.lt_or_ge o x with hlt | hge
+    · exact ⟨0, by simp, by simp, by simpa using hlt⟩
+    · have h' : o - x < rest.sum := by simp only [List.sum_cons] at h; omega
+      obtain ⟨p, hp, h1, h2⟩ := ih (o - x) h'
+      refine ⟨p + 1, by simpa using hp, ?_, ?_⟩
+      · simp only [List.take_succ_cons, List.sum_cons]; omega
+      · simp only [List.take_succ_cons, List.sum_cons, List.getElem_cons_succ]; omega
+
+theorem take_sum_mono (l : List Nat) {p q : Nat} (hpq : p < q) (hp : p < l.length) :
+    (l.take p).sum + l[p] ≤ (l.take q).sum := by
+  induction l generalizing p q with
+  | nil => simp at hp
+  | cons x rest ih =>
+    cases q with
+    | zero => omega
+    | succ q =>
+      cases p with
+      | zero => simp
+      | succ p =>
+        have := ih (p := p) (q := q) (by omega) (by simpa using hp)
+        simp only [List.take_succ_cons, List.sum_cons, List.getElem_cons_succ]; omega
+
+theorem sizes_sum {xs : List Shape} {V : Nat} (h : ∀ s ∈ xs, s.size = V * s.batch) :
+    (xs.map (·.size)).sum = V * (xs.map (·.batch)).sum := by
+  induction xs with
+  | nil => simp
+  | cons x rest ih =>
+    simp only [List.map_cons, List.sum_cons]
+    rw [ih (fun s hs => h s (List.mem_cons_of_mem _ hs)), h x List.mem_cons_self]; ring
+
+
+/-! ### concat: one operand occupying positions `s .. s+n-1` of an axis of extent `N` -/
+
+/-- every step of the loop nest of one operand, in the three-way view -/
+theorem concat_form {B L N U s n hbv t : Nat} (hL : 0 < L) (hn : 0 < n)
+    (ht : t < (concatMoves B L (L * N) U (L * s) n hbv).count) :
+    (concatMoves B L (L * N) U (L * s) n hbv).didx t =
+      comp3 L N (t % (L * n) % L) (s + t % (L * n) / L) (t / (L * n)) ∧
+    t % (L * n) / L < n ∧ t / (L * n) < B * U := by
+  simp only [concatMoves] at ht ⊢
+  have ⟨h1, h2⟩ := seq2_bounds ht
+  refine ⟨?_, Nat.div_lt_of_lt_mul h1, h2⟩
+  unfold comp3
+  have := Nat.div_add_mod (t % (L * n)) L
+  calc L * s + t / (L * n) * (L * N) + t % (L * n)
+      = L * s + t / (L * n) * (L * N) + (L * (t % (L * n) / L) + t % (L * n) % L) := by rw [this]
+    _ = _ := by ring
+
+theorem concat_bounds {B L N U s n Bp : Nat} (hL : 0 < L) (hn : 0 < n) (hU : 0 < U) (hBp : 0 < Bp) (hs : s + n ≤ N)
+    (hcomp : Bp = 1 ∨ Bp = B) :
+    (concatMoves B L (L * N) U (L * s) n (if Bp = 1 then 0 else 1)).InBounds (L * n * U * Bp) (L * N * U * B) := by
+  intro t ht
+  have ⟨e, hk, hq⟩ := concat_form hL hn ht
+  constructor
+  · simp only [concatMoves] at ht ⊢
+    have ht' : t < B * U * (L * n) := ht
+    have ⟨h1, h2, h3⟩ := seq3_bounds ht'
+    have e1 : t % (L * n) + L * n * (t / (L * n) % U) < L * n * U := lt_mul_of_lt h1 h2
+    have := hb_mul_lt (V := L * n * U) (B := Bp) e1 hBp h3 (by rcases hcomp with e | e <;> omega)
+    calc t / (L * n * U) * ((if Bp = 1 then 0 else 1) * (L * n) * U) + t / (L * n) % U * (L * n) + t % (L * n)
+        = t / (L * n * U) * ((if Bp = 1 then 0 else 1) * (L * n * U)) + (t % (L * n) + L * n * (t / (L * n) % U)) := by ring
+      _ < L * n * U * Bp := this
+  · rw [e]
+    have := comp3_lt (lo := L) (n := N) (hi := B * U) (Nat.mod_lt (t % (L * n)) hL) (show s + t % (L * n) / L < N by omega) hq
+    calc _ < L * N * (B * U) := this
+      _ = L * N * U * B := by ring
+
+/-- the step that moves element `(a, k, c, b)` of the operand -/
+theorem concat_step {B L N U s n Bp a k c b : Nat} (ha : a < L) (hk : k < n) (hc : c < U) (hb : b < B)
+    (hcomp : Bp = 1 ∨ Bp = B) :
+    let m := concatMoves B L (L * N) U (L * s) n (if Bp = 1 then 0 else 1)
+    let t := (b * U + c) * (L * n) + (a + L * k)
+    t < m.count ∧ m.didx t = comp3 L N a (s + k) (c + U * b) ∧
+    m.sidx t = comp3 L n a k (c + U * (if Bp = 1 then 0 else b)) := by
+  intro m t
+  have hr : a + L * k < L * n := lt_mul_of_lt ha hk
+  have ⟨i1, i2, i3⟩ := seq3_index (B := U) (C := L * n) (b := b) hc hr
+  have hL : 0 < L := by omega
+  have m3 : (a + L * k) % L = a := by rw [Nat.add_mul_mod_self_left, Nat.mod_eq_of_lt ha]
+  have m4 : (a + L * k) / L = k := by rw [Nat.add_mul_div_left _ _ hL, Nat.div_eq_of_lt ha]; omega
+  have hq : t / (L * n) = b * U + c := by
+    show ((b * U + c) * (L * n) + (a + L * k)) / (L * n) = _
+    rw [Nat.mul_comm, Nat.mul_add_div (by omega), Nat.div_eq_of_lt hr]; omega
+  refine ⟨?_, ?_, ?_⟩
+  · simp only [m, concatMoves]; exact seq3_lt hb hc hr
+  · simp only [m, concatMoves, t]
+    rw [i1, hq]; unfold comp3; ring
+  · simp only [m, concatMoves, t]
+    rw [i1, i2, i3]
+    unfold comp3
+    by_cases h1 : Bp = 1
+    · simp only [h1, if_true]; ring
+    · simp only [h1, if_false]; ring
+
 end Primitiv.Move
